@@ -23,6 +23,7 @@ CONSTANTS MaxId,      \* max_request_id: ids are 0..MaxId, at most MaxId may be 
           Reqs,       \* request names
           CPReqs,     \* the requests that use DSE continuous paging (several pages arrive on one stream)
           MaxPages,   \* a continuous-paging answer has 1..MaxPages pages
+          Busy,                \* TRUE: the socket may become unwritable (ConnectionBusy) - separate switch to keep quick models small
           CloseFailsSessions   \* TRUE: an explicit close() fails open continuous-paging sessions (what C10 asks for);
                                \* FALSE: only defunct() does - Deviation_CloseLeavesSessions, what the pinned code does
                                \* (every reactor's close() calls error_all_requests only); see known_findings.json
@@ -48,8 +49,9 @@ VARIABLES free,      \* Seq(Ids): the deque of recycled / not yet used ids (requ
           pages,     \* per request: pages its paging session has received
           cperr,     \* per request: connection errors delivered to its paging session
           defunct, closed,
+          writable,  \* _socket_writable: FALSE while the reactor's write buffer is full (send_msg raises ConnectionBusy)
           act        \* last action, for replay
-vars == <<free, highest, inflight, reqs, orphans, srv, st, rid, got, errs, cps, pages, cperr, defunct, closed, act>>
+vars == <<free, highest, inflight, reqs, orphans, srv, st, rid, got, errs, cps, pages, cperr, defunct, closed, writable, act>>
 
 Range(f) == {f[x] : x \in DOMAIN f}
 SeqSet(s) == {s[i] : i \in 1..Len(s)}
@@ -72,6 +74,7 @@ Init ==
     /\ cperr = [r \in Reqs |-> 0]
     /\ defunct = FALSE
     /\ closed = FALSE
+    /\ writable = TRUE
     /\ act = A("Init", None, -1)
 
 Dead == defunct \/ closed
@@ -89,7 +92,7 @@ Borrow(r) ==
        /\ act' = A("Borrow", r, id)
     /\ inflight' = inflight + 1
     /\ st' = [st EXCEPT ![r] = "borrowed"]
-    /\ UNCHANGED <<reqs, orphans, srv, got, errs, cps, pages, cperr, defunct, closed>>
+    /\ UNCHANGED <<reqs, orphans, srv, got, errs, cps, pages, cperr, defunct, closed, writable>>
 
 (* Connection.send_msg from ResponseFuture._query *)
 Send(r) ==
@@ -98,13 +101,20 @@ Send(r) ==
        THEN \* ConnectionShutdown raised; _query returns the connection to the pool (in_flight -= 1)
             /\ st' = [st EXCEPT ![r] = "refused"]
             /\ inflight' = inflight - 1
+            /\ UNCHANGED <<reqs, srv, free>>
+       ELSE IF ~writable
+       THEN \* ConnectionBusy: the request moves on to the next host; the unused stream id and the
+            \* capacity it took are given back (the connection is alive and keeps being used)
+            /\ st' = [st EXCEPT ![r] = "refused"]
+            /\ inflight' = inflight - 1
+            /\ free' = Append(free, rid[r])
             /\ UNCHANGED <<reqs, srv>>
        ELSE /\ st' = [st EXCEPT ![r] = "sent"]
             /\ reqs' = (rid[r] :> r) @@ reqs
             /\ srv' = srv \cup {<<rid[r], r>>}
-            /\ UNCHANGED inflight
+            /\ UNCHANGED <<inflight, free>>
     /\ act' = A("Send", r, rid[r])
-    /\ UNCHANGED <<free, highest, orphans, rid, got, errs, cps, pages, cperr, defunct, closed>>
+    /\ UNCHANGED <<highest, orphans, rid, got, errs, cps, pages, cperr, defunct, closed, writable>>
 
 (* Connection.process_msg for the answer to request q on stream id (whole callback, loop thread) *)
 Respond(id, q) ==
@@ -126,7 +136,7 @@ Respond(id, q) ==
                /\ inflight' = inflight - released
                /\ act' = A("RespondLate", q, id)
     /\ free' = Append(free, id)
-    /\ UNCHANGED <<highest, rid, errs, cps, pages, cperr, defunct, closed>>
+    /\ UNCHANGED <<highest, rid, errs, cps, pages, cperr, defunct, closed, writable>>
 
 (* Continuous paging (DSE): the node streams several pages on the request's stream.  The first page goes *)
 (* to the request's handler, which returns the connection to the pool (in_flight -= 1) and registers a   *)
@@ -156,7 +166,7 @@ RespondPage(id, q, last) ==
                /\ act' = A(IF last THEN "OnlyPage" ELSE "FirstPage", r, id)
             /\ inflight' = inflight - 1
     /\ free' = IF last THEN Append(free, id) ELSE free
-    /\ UNCHANGED <<highest, orphans, rid, errs, cperr, defunct, closed>>
+    /\ UNCHANGED <<highest, orphans, rid, errs, cperr, defunct, closed, writable>>
 
 (* ResponseFuture._on_timeout (whole callback, loop thread) *)
 Timeout(r) ==
@@ -168,7 +178,7 @@ Timeout(r) ==
     /\ orphans' = orphans \cup {rid[r]}
     /\ st' = [st EXCEPT ![r] = "timedout"]
     /\ act' = A("Timeout", r, rid[r])
-    /\ UNCHANGED <<free, highest, inflight, srv, rid, got, errs, cps, pages, cperr, defunct, closed>>
+    /\ UNCHANGED <<free, highest, inflight, srv, rid, got, errs, cps, pages, cperr, defunct, closed, writable>>
 
 (* Connection.defunct / close: every registered handler gets one connection error; the request's     *)
 (* error handling returns the connection to the pool (in_flight -= 1 per errored request).           *)
@@ -182,7 +192,15 @@ FailAll(name, failSessions) ==
     /\ reqs' = <<>>
     /\ srv' = {}                               \* the socket is gone: nothing more will arrive
     /\ act' = A(name, None, -1)
-    /\ UNCHANGED <<free, highest, orphans, rid, got, cps, pages>>
+    /\ UNCHANGED <<free, highest, orphans, rid, got, cps, pages, writable>>
+
+(* the reactor's write buffer fills up / drains (libev reactor); any thread's send is refused meanwhile *)
+SetWritable(w) ==
+    /\ Busy
+    /\ ~Dead /\ writable # w
+    /\ writable' = w
+    /\ act' = A(IF w THEN "SocketWritable" ELSE "SocketBusy", None, -1)
+    /\ UNCHANGED <<free, highest, inflight, reqs, orphans, srv, st, rid, got, errs, cps, pages, cperr, defunct, closed>>
 
 SocketError == FailAll("SocketError", TRUE) /\ defunct' = TRUE /\ closed' = TRUE
 Close       == FailAll("Close", CloseFailsSessions) /\ closed' = TRUE /\ UNCHANGED defunct
@@ -193,6 +211,7 @@ Next ==
     \/ \E id \in Ids, q \in Reqs, last \in BOOLEAN : RespondPage(id, q, last)
     \/ SocketError
     \/ Close
+    \/ \E w \in BOOLEAN : SetWritable(w)
 
 Spec == Init /\ [][Next]_vars
 
@@ -247,5 +266,6 @@ Witness_Grow == ~(highest = MaxId - 1 /\ highest > InitFree - 1)
 Witness_ErroredTwoAtOnce == ~(Cardinality({r \in Reqs : st[r] = "errored"}) >= 2)
 Witness_SessionOpen == cps = <<>>
 Witness_SessionFailed == \A r \in Reqs : cperr[r] = 0
+Witness_Busy == ~(\E r \in Reqs : st[r] = "refused" /\ ~Dead)
 Witness_Refused == \A r \in Reqs : st[r] # "refused"
 =============================================================================
